@@ -25,12 +25,13 @@ RULE = ("clause lists of length 0-5 over iteration clauses (dependent iterables,
         "generator-function strategy, or a leak expectation exercised (setx / pre-bound same name / "
         "for); distinct by Hy text.")
 FLOOR = {"quick": 800, "thorough": 800}
-BUDGET = {"quick": 30, "thorough": 480}
+BUDGET = {"quick": 24, "thorough": 480}
 CASE_TIMEOUT = 20
 NEEDS_EVENTS = True
+# (ScopeGen.assign / .access are wrapped by NodeRef.wrap, whose closure hides the code
+# object from hv/reach.py; they are reached through compile_comprehension anyway)
 ANCHORS = ["hy.core.result_macros:compile_comprehension", "hy.scoping:ScopeGen.finalize",
-           "hy.scoping:ScopeGen.iterator", "hy.scoping:ScopeGen.assign", "hy.scoping:ScopeGen.access",
-           "hy.scoping:ScopeGen.__enter__"]
+           "hy.scoping:ScopeGen.iterator", "hy.scoping:ScopeGen.__enter__"]
 ASSUMPTIONS = [
     "CPython 3.12.1 executes the explicit nested-loop twin as documented",
     "nested-loop reading of docs/api.rst lfor: :setv = assignment, :if = guard, :do = statement, "
@@ -54,6 +55,20 @@ MANIFEST = {
                  "trace logger, namespace snapshots, strategy detection from the emitted AST",
 }
 
+# Mechanisms found on the unchanged tree (attribution in run_case).
+#
+# KEY_FIRST  compile_comprehension, generator-function strategy: the first iterable
+#   (or a leading :setv value) is evaluated inside the generated function, where a
+#   same-named iteration / :setv variable is already local and class-body variables
+#   are invisible; the native strategy (and Python) evaluate it in the enclosing scope:
+#     (setv x [1 2]) (lfor x x (* x 10)) -> [10 20] but (lfor x x :do None (* x 10)) -> UnboundLocalError
+#     (defclass C [] (setv k [1 2]) (setv r (lfor x k :do None x)))          -> NameError: k
+#   Repair: compile the first iterable's Result outside, give the generated function one
+#   parameter and pass the value in (as CPython does for real comprehensions).
+# KEY_UNPACK  compile_comprehension `f()`, `ends_with_unpack` arm: `to_loop` is built from
+#   `elt.expr.value` / `key.force_expr` only, so the *statements* of a `#* FORM` / `#** FORM`
+#   final form are dropped:  (lfor x [1 2] #* (do (print x) [x x]))  never prints.
+#   Repair: `to_loop = Result(stmts=list((key if dict_unpack else elt).stmts), expr=...)`.
 KEY_FIRST = "genfn-first-iterable-evaluated-inside-function"
 KEY_UNPACK = "unpack-final-statements-dropped"
 
@@ -80,6 +95,7 @@ class G:
         self.nb = 0
         self.pre = {}           # pre-bound names of the enclosing scope: name -> (type, literal)
         self.bound_names = {}   # comprehension binders: bid -> name
+        self.binder_scope = {}  # bid -> comprehension scope number (0 = the form itself)
         self.setx_targets = []
         self.uses_setx = False
         self.inner_comp = False
@@ -147,6 +163,7 @@ class G:
         self.nb += 1
         bid = self.nb
         self.bound_names[bid] = name
+        self.binder_scope[bid] = bid
         it = ("range", self.gint(env, 2, False))
         env2 = dict(env)
         env2[name] = ("int", bid)
@@ -165,6 +182,11 @@ class G:
     def gcond(self, env, eff=True, setx_ok=False):
         r = self.r
         x = r.random()
+        if eff and setx_ok and self.setx_targets and r.random() < 0.15:
+            self.uses_setx = True
+            return ("cmp", r.choice(["<", ">", "!="]),
+                    ("setx", r.choice(self.setx_targets), self.gint(env, 1, False, False), "setx"),
+                    ("int", r.randint(0, 3)))
         if x < 0.55:
             i = r.randrange(2)
             return ("cmp", r.choice(["<", ">", "!=", "="]), self.gint(env, 1, eff and i == 0, setx_ok),
@@ -178,6 +200,10 @@ class G:
     def gvalue(self, env, hashable, setx_ok=True):
         r = self.r
         x = r.random()
+        if setx_ok and self.setx_targets and r.random() < 0.22:
+            self.uses_setx = True
+            style = "setvdo" if r.random() < 0.25 else "setx"
+            return ("setx", r.choice(self.setx_targets), self.gint(env, 1, False, False), style)
         if x < 0.5:
             return self.gint(env, 0, True, setx_ok)
         n = r.randint(1, 3)
@@ -272,20 +298,37 @@ def build(rng, scope, form):
     names = fresh_names()
     targets = {}
     all_bound = set()
+    bound_type = {}
     for i, k in enumerate(kinds):
         if k in ("for", "setv"):
-            if k == "for":
-                tg, ityp, vt = g.gtarget(names)
+            # a name may be bound by several clauses, but always with one type
+            for _ in range(20):
+                save = (g.nb, dict(g.bound_names))
+                if k == "for":
+                    tg, ityp, vt = g.gtarget(names)
+                else:
+                    n = next(names)
+                    tg, ityp, vt = ("tn", n, g.new_binder(n)), None, \
+                        {n: bound_type.get(n) or r.choice(["int", "int", "ilist"])}
+                if all(bound_type.get(n, t) == t for n, t in vt.items()):
+                    break
+                g.nb, g.bound_names = save[0], save[1]
             else:
-                n = next(names)
-                tg, ityp, vt = ("tn", n, g.new_binder(n)), None, {n: r.choice(["int", "int", "ilist"])}
+                n = next(m for m in VARS if bound_type.get(m, "int") == "int")
+                tg, ityp, vt = ("tn", n, g.new_binder(n)), ("ilist" if k == "for" else None), {n: "int"}
+            bound_type.update(vt)
             targets[i] = (tg, ityp, vt)
             all_bound |= set(vt)
     if not is_for:
         g.setx_targets = [t for t in g.setx_targets if t not in all_bound]
-        # a pre-bound int of the enclosing scope may also be a setx target
+        # a pre-bound int of the enclosing scope may also be a setx target; it is then
+        # never *read* inside the form (sibling evaluation order is unspecified)
         if allow_setx and scope != "class":
-            g.setx_targets += [n for n, (t, _) in g.pre.items() if t == "int" and n not in all_bound]
+            cand = sorted(n for n, (t, _) in g.pre.items() if t == "int" and n not in all_bound)
+            if cand and r.random() < 0.6:
+                n = r.choice(cand)
+                g.setx_targets.append(n)
+                outer.pop(n, None)
     clauses = []
     slots = []
     env = {n: v for n, v in outer.items() if n not in all_bound} if not is_for else dict(outer)
@@ -528,7 +571,11 @@ class Ren:
 
     # ---- Python twin
     def pyname(self, name, bid):
-        return f"{name}__c{bid}" if bid is not None else name
+        # one twin variable per (comprehension scope, name): binding a name twice in
+        # one form rebinds the same variable
+        if bid is None:
+            return name
+        return f"{name}__c{self.g.binder_scope.get(bid, 0)}"
 
     def py(self, e):
         k = e[0]
